@@ -40,7 +40,8 @@ def flow_spec():
             "pair": st.integers(0, 5),
             "amp_e": st.floats(-15.0, 2.0),
             "size_e": st.floats(-2.0, 6.0),
-            "p": st.lists(st.floats(-0.99, 0.99), min_size=3, max_size=3),
+            # exact zeros (points on the coordinate axes / the ridge axis of the corner flow) are planted
+            "p": st.lists(st.one_of(st.floats(-0.99, 0.99), st.just(0.0), st.sampled_from([0.5, -0.5, 0.25])), min_size=3, max_size=3),
         }
     )
 
@@ -68,8 +69,12 @@ def point_of(fs, i, j, size):
         x[k] = p[2] * size
     elif fs["fam"] == "corner_2d":
         # horizontal >= 0 away from the ridge, vertical <= 0 (below the surface)
-        x[i] = (abs(p[0]) + 1e-3) * size
-        x[j] = -(abs(p[1]) + 1e-3) * size
+        # the ridge axis (horizontal = 0) and the surface (vertical = 0) belong to the domain;
+        # only the singular origin is avoided
+        x[i] = abs(p[0]) * size
+        x[j] = -abs(p[1]) * size
+        if math.hypot(x[i], x[j]) < 1e-6 * size:
+            x[j] = -1e-3 * size
         x[k] = p[2] * size
     else:
         x[i] = p[0] * size
@@ -126,7 +131,10 @@ def _pointwise(case, model):
     require(Lx.shape == (3, 3) and ux.shape == (3,), f"shapes {Lx.shape}, {ux.shape}")
     require(np.all(np.isfinite(Lx)) and np.all(np.isfinite(ux)), "non-finite velocity or gradient at an interior point")
     J = closed_form_jacobian(fs, x, i, j, amp, size)
-    scale = max(np.abs(J).max(), 1e-300)
+    # natural magnitude of the gradient (the closed form may vanish identically, e.g. on the
+    # ridge axis of the corner flow)
+    natural = {"simple_shear_2d": amp, "cell_2d": amp * math.pi / size, "corner_2d": amp / max(math.hypot(x[i], x[j]), 1e-300)}[fs["fam"]]
+    scale = max(np.abs(J).max(), natural)
     if model == "doubled":  # known finding: simple_shear_2d returns exactly twice the Jacobian
         J_expect = 2 * J
     elif model == "cell_swapped":  # known finding: entries of the vertical row exchanged
@@ -144,7 +152,7 @@ def _pointwise(case, model):
         # the velocity callable itself agrees with the closed form (finite differences)
         hstep = 1e-3 * (size if fs["fam"] != "simple_shear_2d" else max(size, 1.0))
         if fs["fam"] == "corner_2d":
-            hstep = 1e-3 * min(abs(x[i]), abs(x[j]))
+            hstep = 1e-3 * math.hypot(x[i], x[j])  # smooth everywhere except at the origin
         if fs["fam"] == "cell_2d":
             hstep = min(hstep, 0.5 * (size / 2 - max(abs(x[i]), abs(x[j]))))
         if hstep > 0:
